@@ -77,8 +77,26 @@ def run_case(case):
     has_err = any(c in ("TMP", "PRS") for c, _, _ in base)
     visible = obs["lint_api"]["records"]
     lint_rc, fix_rc = model(visible, has_err, s, None)
+    # `format` has no fix_even_unparsable switch (the CLI passes False): errors always block it
+    # ... and it runs its own fixed rule list, so what is visible to it is measured under that list
+    from sqlfluff.core import FluffConfig, Linter
+    from vf.props import fixfam
+    import os
+
+    d = clifam.mkdir(s, "fmtapi")
+    old = os.getcwd()
+    os.chdir(d)
+    try:
+        ov = {"rules": fixfam.FORMAT_RULES}
+        if clifam.SUPP[s["supp"]][2]:
+            ov["ignore"] = clifam.SUPP[s["supp"]][2][1]
+        lf = Linter(config=FluffConfig.from_path("f.sql", overrides=ov)).lint_string(obs["text"], fname="f.sql")
+        visible_fmt = clifam.api_records(lf)
+    finally:
+        os.chdir(old)
+    _, format_rc = model(visible_fmt, has_err, dict(s, feu=False), None)
     feats = {"err": s["err"], "supp": s["supp"], "feu": bool(s.get("feu")), "warn": s.get("warn", "none"), "fix": s["fix"]}
-    for ep, want in (("lint_path", lint_rc), ("lint_stdin", lint_rc), ("fix_path", fix_rc), ("fix_stdin", fix_rc), ("format_path", fix_rc), ("format_stdin", fix_rc)):
+    for ep, want in (("lint_path", lint_rc), ("lint_stdin", lint_rc), ("fix_path", fix_rc), ("fix_stdin", fix_rc), ("format_path", format_rc), ("format_stdin", format_rc)):
         res["n"] += 1
         got = obs[ep]["rc"]
         if got != want:
